@@ -3,7 +3,7 @@
 // Copyright (c) A5 contributors
 
 use crate::coordinate_systems::{Cartesian, Face, LonLat};
-use crate::core::constants::PI_OVER_5;
+use crate::core::constants::{INTERHEDRAL_ANGLE, PI_OVER_5};
 use crate::core::coordinate_transforms::{
     face_to_ij, from_lon_lat, normalize_longitudes, to_cartesian, to_lon_lat, to_polar,
     to_spherical,
@@ -324,6 +324,18 @@ pub fn a5cell_contains_point(cell: &A5Cell, point: LonLat) -> Result<f64, String
     use crate::core::tiling::{get_face_vertices, get_quintant_vertices};
 
     let spherical = from_lon_lat(point);
+
+    // The triangles of a face, and their mirror images across its edges (which the cells that straddle an
+    // edge use), reach as far as the centres of the neighbouring faces. Further out the projection relative
+    // to this face is an extrapolation that can land anywhere, also inside the cell, so no cell of the face
+    // contains such a point
+    let p = to_cartesian(spherical);
+    let axis = to_cartesian(cell.origin().axis);
+    let cos_distance = p.x() * axis.x() + p.y() * axis.y() + p.z() * axis.z();
+    if cell.resolution >= 0 && cos_distance < INTERHEDRAL_ANGLE.get().cos() {
+        return Ok(-1.0);
+    }
+
     let dodecahedron = DodecahedronProjection::get_thread_local();
     let projected_point = dodecahedron.forward(spherical, cell.origin_id)?;
 
